@@ -28,7 +28,55 @@ AD_RULE = ("scripted reader pairs (<=2-3 actions each from data-chunk/short read
            "(full/partial/zero/error); three-way: implementation, real std::io::Chain/Take over twin readers, Lean model; "
            "distinct = distinct scenario line; non-trivial = more than one call")
 
+RF_RULE = ("every byte stream over {a,CR,LF,NUL} of length <=4 (quick; <=6 thorough; one shorter when faults are injected) x EVERY composition "
+           "of the stream into read chunks x SIZE in {0..4,6} (quick) / {0..8} x 4 contract-honouring deframers (line, crlf, null, "
+           "length-prefixed), buffers starting empty; plus seeded scenarios with pre-loaded buffers at a non-zero read offset, SIZE up to 64, "
+           "streams up to 120 bytes, scribbling short reads and rejecting deframers; rfe additionally injects an error of each of 5 kinds or a "
+           "panic before every reader call (pairs in thorough). Each scenario is a whole sequence of read_frame calls until the terminal result "
+           "has repeated; distinct = distinct scenario; non-trivial = more than two calls")
+
 PROPS = {
+    "C02": {
+        "module": "FBV.Props.C02",
+        "theorems": ["FBV.pollLoop_outcome", "FBV.C02.read_frame_spec", "FBV.C02.read_frames_all", "FBV.C02.chunking_independent",
+                     "FBV.C02.terminal_cases", "FBV.C02.line_instance", "FBV.C02.crlf_instance", "FBV.C02.null_instance"],
+        "jobs": sync_jobs("rf"),
+        "tie": "T2 whole read_frame scenarios: concrete model vs implementation call by call, and the specification evaluated on the implementation's results",
+        "rule": RF_RULE,
+        "level_text": ("Kernel-checked for every stream, every chunk schedule, every SIZE>=0, every deframer honouring the documented contract (the three "
+                       "provided ones do: C05) and any starting buffer: each read_frame call returns specNext(SIZE, deframer, unread++undelivered) — a function "
+                       "in which no chunk schedule occurs — and leaves exactly what it names pending; repeated calls return the stream's frames in order then "
+                       "the terminal outcome (InvalidData / Ok(None) / UnexpectedEof as the property states them). Proved on the abstract buffer (capacity, read "
+                       "offset, unread bytes) whose operations are the C01/C03 effects of the concrete methods; the concrete loop model and the abstract "
+                       "specification are both compared with the real read_frame over every composition of every small stream."),
+    },
+    "C06": {
+        "module": "FBV.Props.C06",
+        "theorems": ["FBV.pollLoop_outcome", "FBV.C06.reader_error_loses_nothing", "FBV.C06.error_erasure", "FBV.C06.own_errors_stable"],
+        "jobs": sync_jobs("rfe"),
+        "tie": "T2 as C02 with a reader error (5 kinds) or panic injected before every reader call",
+        "rule": RF_RULE,
+        "level_text": ("Kernel-checked for ARBITRARY scripts mixing chunks with reader errors of any kind at any position: an error return carries a kind "
+                       "the reader produced, consumes nothing and keeps unread++undelivered intact (bytes of earlier reads of the same call included); a "
+                       "caller that re-calls after every error obtains exactly the error-free specification's frames and outcome (error erasure, by "
+                       "induction on the number of errors); read_frame's own errors leave the pending stream untouched and therefore repeat. Tied by "
+                       "fault injection at every reader call, including panics after which the buffer is inspected and used again."),
+        "assumptions": ["An Interrupted read is returned like any other error (today's behaviour); a transparent retry, which the property also allows, would show as model drift"],
+    },
+    "C12": {
+        "module": "FBV.Props.C12",
+        "theorems": ["FBV.C12.no_call_when_frame_buffered", "FBV.C12.no_call_when_rejected", "FBV.C12.no_call_when_full", "FBV.C12.offers_ok",
+                     "FBV.C12.copy_once_from_spec", "FBV.pollLoop_outcome"],
+        "jobs": (lambda tier: [{"which": "sync", "profile": "dev", "args": ["rf"], "oc": True}, {"which": "sync", "profile": "dev", "args": ["rfe"], "oc": True},
+                               {"which": "sync", "profile": "dev", "args": ["t1"], "oc": True}]),
+        "tie": "T2 reader call logs of every read_frame call + T1 copy_once_from with every reader response 0..=offered, errors, panics, scribbling",
+        "rule": RF_RULE + "; plus the T1 exploration for copy_once_from",
+        "level_text": ("Kernel-checked: read_frame does not touch the reader when a complete frame or rejected data is buffered or the buffer is full; every "
+                       "destination it offers is non-empty and within the buffer; unread++undelivered is conserved (exactly what the reader reports is "
+                       "committed); copy_once_from makes exactly one call offering the whole free space, commits exactly the reported count, and a reader "
+                       "error/panic changes nothing, none (InvalidData) when full. The clauses are evaluated on the implementation's own reader logs; "
+                       "scribbling readers make stale/uninitialised commits visible."),
+    },
     "C08": {
         "module": "FBV.Props.C08",
         "theorems": ["FBV.C08.chain_bisim", "FBV.C08.chain_eq_std", "FBV.C08.rel_new", "FBV.C08.second_not_before_eof",
